@@ -13,7 +13,7 @@
    file by the harness). *)
 From PGV Require Import Base.Bytes Base.GoStr.
 From PGV Require Export Spec.InjectSpec.     (* only the abstract-file vocabulary is used here *)
-Open Scope N_scope.
+Local Open Scope N_scope.
 
 (* ---------------- handletag.go ---------------- *)
 
